@@ -128,7 +128,12 @@ extern "C" void h_bech32_errors()
 {
     const std::string hrp(HRP);
     std::vector<uint8_t> values(NDATA);
+#ifdef SAMPLE
+    // a sampled (concrete) payload, every error pattern symbolic: "all 1-4 character substitutions of sampled addresses"
+    for (int i = 0; i < NDATA; i++) values[i] = (uint8_t)((SAMPLE * (i + 1) + 3 * i * i + 5) & 31);
+#else
     for (int i = 0; i < NDATA; i++) values[i] = (uint8_t)nondet_range(0, 31);
+#endif
     const std::vector<uint8_t> cs = bech32::CreateChecksum(KENC, hrp, values);
     std::vector<uint8_t> cw(NDATA + 6);
     int weight = 0;
